@@ -131,10 +131,12 @@ def regimes(rng, k, precs, neg):
 def _fact_num(v, reg, param):
     if is_num(v):
         return v
-    if isinstance(v, Opaque) and v.name in (".index", ".find") and len(v.args) == 2 and v.args[1] == Lit("."):
+    if isinstance(v, Opaque) and v.name in (".index", ".find", ".rfind", ".rindex") and len(v.args) == 2 and v.args[1] == Lit("."):
         ms = fixed_models(v.args[0], reg, param)
         if ms and len(ms) == 1 and ms[0].point and not ms[0].corrupt:
             return Fraction(ms[0].point_index)
+        if ms and len(ms) == 1 and not ms[0].point and not ms[0].corrupt and v.name in (".find", ".rfind"):
+            return Fraction(-1)
     return None
 
 
@@ -156,28 +158,52 @@ def _fact_text_eq(a, b, reg, param):
     return None
 
 
+def _fact_truth(vals, reg, param):
+    """truth of a recorded test (op, a, b) on the columns of the regime, None when the columns do not decide it"""
+    if not vals:
+        return None
+    op, a, b = vals
+    if op == "truth":
+        x = _fact_num(a, reg, param)
+        if x is not None:
+            return x != 0
+        if isinstance(a, Opaque) and a.name == ".count" and len(a.args) == 2 and a.args[1] == Lit("."):
+            ms = fixed_models(a.args[0], reg, param)
+            if ms and len(ms) == 1 and not ms[0].corrupt:
+                return bool(ms[0].point)
+        return None
+    if isinstance(op, (ast.Eq, ast.NotEq)):
+        r = _fact_text_eq(a, b, reg, param)
+        if r is not None:
+            return r == isinstance(op, ast.Eq)
+    if isinstance(op, (ast.In, ast.NotIn)) and isinstance(a, Lit) and a.s in (".", "-"):
+        # does the rendering (or its first n columns) hold the decimal point / a minus sign
+        ms = fixed_models(b, reg, param)
+        if ms and len(ms) == 1 and ms[0].corrupt in ("", "integer digits are cut off"):      # (a cut keeps the columns before it)
+            return bool(ms[0].point if a.s == "." else ms[0].sign) == isinstance(op, ast.In)
+        return None
+    x, y = _fact_num(a, reg, param), _fact_num(b, reg, param)
+    if x is None or y is None:
+        return None
+    try:
+        return _num_cmp(op, x, y)
+    except Unsupported:
+        return None
+
+
 def feasible(leaf, reg, param):
     """False when a recorded test outcome contradicts the columns of the regime (e.g. `field.index('.') < 8`, `field2 == '.'`)"""
     for f in leaf.state.facts:
-        vals = f[3] if len(f) > 3 else None
-        if not vals:
-            continue
-        op, a, b = vals
-        if isinstance(op, (ast.Eq, ast.NotEq)):
-            r = _fact_text_eq(a, b, reg, param)
-            if r is not None:
-                if (r == isinstance(op, ast.Eq)) != f[1]:
-                    return False
-                continue
-        x, y = _fact_num(a, reg, param), _fact_num(b, reg, param)
-        if x is None or y is None:
-            continue
-        try:
-            if _num_cmp(op, x, y) != f[1]:
-                return False
-        except Unsupported:
-            continue
+        r = _fact_truth(f[3] if len(f) > 3 else None, reg, param)
+        if r is not None and r != f[1]:
+            return False
     return True
+
+
+def open_tests(leaf, reg, param):
+    """source text of the recorded tests of the path that the columns of the regime do not decide: the path may or may not be one that
+    a value of the regime takes, so nothing can be *proved* wrong on it"""
+    return [f[0] for f in leaf.state.facts if _fact_truth(f[3] if len(f) > 3 else None, reg, param) is None]
 
 
 def fact_precisions(leaf, param):
@@ -341,10 +367,13 @@ def exp_int(v, param):
 
 def exp_digits(v, param):
     """text of |exponent| without sign and leading zeros"""
-    if isinstance(v, Strip) and v.side in ("b", "l") and v.chars is not None and "-" in v.chars and set(v.chars) <= set("-+ ") \
-            and isinstance(v.s, StrOf) and exp_int(v.s.x, param):
-        return True
-    if isinstance(v, StrOf) and isinstance(v.x, Abs) and exp_int(v.x.x, param):
+    from .c12_str import _int_piece
+    if isinstance(v, Strip) and v.side in ("b", "l") and v.chars is not None and "-" in v.chars and set(v.chars) <= set("-+ "):
+        ip = _int_piece(v.s)                         # str(e), '%d' % e, f'{e}', '{:d}'.format(e) ... are the same text
+        if ip is not None and exp_int(ip, param):
+            return True
+    ip = _int_piece(v)
+    if isinstance(ip, Abs) and exp_int(ip.x, param):
         return True
     return False
 
@@ -395,7 +424,9 @@ class SciRun:
         def length(v, st, eng):
             if exp_digits(v, param):
                 return Fraction(e)
-            if isinstance(v, StrOf) and exp_int(v.x, param):
+            from .c12_str import _int_piece
+            ip = _int_piece(v)
+            if ip is not None and exp_int(ip, param):
                 return Fraction(e + (1 if small else 0))
             return None
 
@@ -449,7 +480,9 @@ class SciRun:
             return tot
         if exp_digits(v, param):
             return self.e
-        if isinstance(v, StrOf) and exp_int(v.x, param):
+        from .c12_str import _int_piece
+        ip = _int_piece(v)
+        if ip is not None and exp_int(ip, param):
             return self.e + (1 if self.small else 0)
         ms = fixed_models(v, Reg(self.neg, 1, 99 if carry else -1), mantissa_kind(param))
         if ms is not None:
